@@ -290,46 +290,70 @@ def rule_tables(r):
     return w, ew, x, ex
 
 
+SH = 260
+ONE = 1 << SH
+
+
+def _fix(num):
+    """Num -> fixed-point integer (value * 2^260, truncated)"""
+    v = num.v
+    if isinstance(v, Fraction):
+        return (v.numerator << SH) // v.denominator
+    return int(mpmath.floor(mpmath.ldexp(v, SH)))
+
+
 def achieved_degree(r, kind, maxdeg):
     """largest D <= maxdeg such that all monomials of total degree <= D are integrated exactly
-    within the propagated literal error; returns (D, first failing (exponent, residual, tol))"""
-    w, ew, x, ex = rule_tables(r)
+    within the propagated literal error; returns (D, first failing (exponent, residual, tol)).
+    Arithmetic: 260-bit fixed point for the moments (truncation error < 1e-70 per operation),
+    double precision for the (first-order, 5% inflated) literal error bound."""
     n, dim = r.n, r.dim
-    # powers
-    pw = [[[mpmath.mpf(1)] for _ in range(dim)] for _ in range(n)]
+    w = [_fix(r.w[i]) for i in range(n)]
+    ew = [float(r.w[i].ferr()) for i in range(n)]
+    x = [[_fix(r.x[(i, j)]) for j in range(dim)] for i in range(n)]
+    ex = [[float(r.x[(i, j)].ferr()) for j in range(dim)] for i in range(n)]
+    pw = [[[ONE] for _ in range(dim)] for _ in range(n)]
+    pwf = [[[1.0] for _ in range(dim)] for _ in range(n)]
     for i in range(n):
         for j in range(dim):
             p = pw[i][j]
+            xf = x[i][j]
             for a in range(1, maxdeg + 1):
-                p.append(p[-1] * x[i][j])
-    worst = None
+                p.append((p[-1] * xf) >> SH)
+            pwf[i][j] = [abs(q / ONE) for q in p]
+    wf = [abs(q / ONE) for q in w]
+    anyerr = any(e > 0 for e in ew) or any(e > 0 for row in ex for e in row)
     for D in range(0, maxdeg + 1):
         for e in monomials(dim, D):
             if sum(e) != D:
                 continue
-            s = mpmath.mpf(0)
-            tol = mpmath.mpf(0)
+            s = 0
+            tol = 0.0
             for i in range(n):
-                m = mpmath.mpf(1)
-                for j in range(dim):
-                    m *= pw[i][j][e[j]]
-                s += w[i] * m
-                t = ew[i] * abs(m)
-                for j in range(dim):
-                    if e[j] == 0 or ex[i][j] == 0:
-                        continue
-                    dm = e[j] * abs(pw[i][j][e[j] - 1])
-                    for k2 in range(dim):
-                        if k2 != j:
-                            dm *= abs(pw[i][k2][e[k2]])
-                    t += abs(w[i]) * dm * ex[i][j]
-                tol += t
-            tol = tol * mpmath.mpf("1.05") + mpmath.mpf(10) ** (-55)
-            res = abs(s - frac_mpf(exact_integral(kind, dim, e)))
+                m = pw[i][0][e[0]]
+                for j in range(1, dim):
+                    m = (m * pw[i][j][e[j]]) >> SH
+                s += (w[i] * m) >> SH
+                if anyerr:
+                    pf = pwf[i]
+                    mf = 1.0
+                    for j in range(dim):
+                        mf *= pf[j][e[j]]
+                    t = ew[i] * mf
+                    for j in range(dim):
+                        if e[j] == 0 or ex[i][j] == 0.0:
+                            continue
+                        dm = e[j] * pf[j][e[j] - 1]
+                        for k2 in range(dim):
+                            if k2 != j:
+                                dm *= pf[k2][e[k2]]
+                        t += wf[i] * dm * ex[i][j]
+                    tol += t
+            tol = tol * 1.05 + 1e-60
+            ex_int = exact_integral(kind, dim, e)
+            res = abs(s - ((ex_int.numerator << SH) // ex_int.denominator)) / ONE
             if res > tol:
-                return D - 1, (e, res, tol)
-            if tol > 0 and (worst is None or res / tol > worst[0]):
-                worst = (res / tol, e)
+                return D - 1, (e, mpmath.mpf(res), mpmath.mpf(tol))
     return maxdeg, None
 
 
@@ -511,14 +535,15 @@ def run(tier):
                 continue
             if kind == "scalar":
                 scalar_rules[(nm, key[3])] = r
-            rules[key] = (r, f)
+            fills = [g for g in fo.inlined_fns if g.name == "fill"]
+            rules[key] = (r, fills[0] if fills else f)
 
     # ---- composed factories: tensor product / simplex-scalar, fed with every folded scalar rule -------
     scalar_by_driver = {}
     big_tensor = []
     for (k_, d_, nm_, n_), (r_, f_) in rules.items():
         if k_ == "scalar":
-            m = re.search(r"DriverFactory<(FEAT::Cubature::Scalar::\w+)", f_.cls)
+            m = re.search(r"(FEAT::Cubature::Scalar::\w+Driver)\b", f_.cls)
             if m:
                 scalar_by_driver.setdefault(m.group(1), []).append((nm_, n_, r_))
     for f in sorted(facts.functions, key=lambda f: f.full):
